@@ -47,6 +47,7 @@ type peer struct {
 	kind      peerKind
 	threshold int
 	simul     bool
+	initiator bool // the library is passive: this peer sends the Select.req
 	interval  time.Duration
 	t6        time.Duration
 	wmu       sync.Mutex
@@ -81,6 +82,13 @@ func (p *peer) run() {
 	hdr := make([]byte, 4)
 	var extra sync.WaitGroup
 	defer extra.Wait()
+	if p.initiator {
+		p.selectedT.Store(time.Now().UnixNano()) // lower-bound reference: before the Select.req is written
+		if p.write(hsms.NewSelectReq(0xFFFF, [4]byte{0x7e, 0, 0, 1}).ToBytes()) != nil {
+			p.closedT.Store(time.Now().UnixNano())
+			return
+		}
+	}
 	for {
 		if _, err := io.ReadFull(p.conn, hdr); err != nil {
 			p.closedT.Store(time.Now().UnixNano())
@@ -191,6 +199,7 @@ type scenario struct {
 	kind      peerKind
 	threshold int
 	suppress  bool
+	passive   bool // PASSIVE library with stray dialers (runPassiveStray)
 	simul     bool // simultaneous select (E37 7.4.3): the peer sends its OWN Select.req before answering ours, so the active library commits Selected through its responder path
 	scale     int // all protocol timings are multiplied by this (1, or 4 on a re-run after a punctuality alarm)
 }
@@ -362,6 +371,9 @@ func main() {
 			}
 		}
 	}
+	for _, sup := range []bool{true, false} {
+		scs = append(scs, scenario{kind: silent, threshold: 1 + c.Rng.Intn(3), suppress: sup, passive: true})
+	}
 	reps := 1
 	if c.Tier == "thorough" {
 		reps = 5
@@ -385,6 +397,160 @@ func main() {
 	c.Finish()
 }
 
+// chanListener is a harness-owned listener for the passive role: Accept hands out the pipe ends the
+// harness pushes.
+type chanListener struct {
+	ch     chan net.Conn
+	closed chan struct{}
+	once   sync.Once
+}
+
+func (l *chanListener) Accept() (net.Conn, error) {
+	select {
+	case c := <-l.ch:
+		return c, nil
+	case <-l.closed:
+		return nil, net.ErrClosed
+	}
+}
+func (l *chanListener) Close() error   { l.once.Do(func() { close(l.closed) }); return nil }
+func (l *chanListener) Addr() net.Addr { return &net.TCPAddr{IP: net.IPv4(127, 0, 0, 1), Port: 5000} }
+
+// runPassiveStray: PASSIVE library, a peer that selects and then goes completely silent, while
+// unrelated TCP clients keep connecting to the listening port (each is accepted and refused). A
+// refused dialer is not life on the session: the silent peer must be dropped after exactly
+// <threshold> probes, no earlier than threshold x (interval + T6).
+func runPassiveStray(c *vh.Ctx, sc scenario) {
+	if sc.scale < 1 {
+		sc.scale = 1
+	}
+	interval := baseInterval * time.Duration(sc.scale)
+	t6 := baseT6 * time.Duration(sc.scale)
+	var mu sync.Mutex
+	var cur *chanListener
+	listen := func(ctx context.Context, network, address string) (net.Listener, error) {
+		l := &chanListener{ch: make(chan net.Conn), closed: make(chan struct{})}
+		mu.Lock()
+		cur = l
+		mu.Unlock()
+		return l, nil
+	}
+	push := func(conn net.Conn, wait time.Duration) bool {
+		mu.Lock()
+		l := cur
+		mu.Unlock()
+		if l == nil {
+			return false
+		}
+		select {
+		case l.ch <- conn:
+			return true
+		case <-l.closed:
+			return false
+		case <-time.After(wait):
+			return false
+		}
+	}
+	cfg, err := hsmsss.NewConfig("127.0.0.1", 5000, hsmsss.WithPassive(), hsmsss.WithListener(listen),
+		hsmsss.WithConnectionOption(hsms.WithT6(t6)),
+		hsmsss.WithConnectionOption(hsms.WithT7(2*time.Second)),
+		hsmsss.WithConnectionOption(hsms.WithLinktestInterval(interval)),
+		hsmsss.WithConnectionOption(hsms.WithLinktestFailThreshold(sc.threshold)),
+		hsmsss.WithConnectionOption(hsms.WithLinktestSuppression(sc.suppress)),
+		hsmsss.WithConnectionOption(hsms.WithCloseTimeout(2*time.Second)),
+	)
+	if err != nil {
+		c.Fail("config: "+err.Error(), "")
+		return
+	}
+	conn, err := hsmsss.New(cfg)
+	if err != nil {
+		c.Fail("new: "+err.Error(), "")
+		return
+	}
+	name := fmt.Sprintf("E passive peer=silent stray-dialers threshold=%d suppress=%s", sc.threshold, vh.B01(sc.suppress))
+	opened := make(chan error, 1)
+	go func() {
+		ctx, cancel := context.WithTimeout(context.Background(), 5*time.Second)
+		defer cancel()
+		opened <- conn.Open(ctx, hsms.OpenWaitSelected)
+	}()
+	a, b := net.Pipe()
+	p0 := &peer{conn: b, kind: silent, threshold: sc.threshold, initiator: true, interval: interval, t6: t6, stop: make(chan struct{}), done: make(chan struct{})}
+	deadlineListen := time.Now().Add(3 * time.Second)
+	for !push(a, 50*time.Millisecond) {
+		if time.Now().After(deadlineListen) {
+			c.Fail("open failed: the passive library never accepted the peer", name)
+			_ = conn.Close()
+			return
+		}
+	}
+	go p0.run()
+	if err := <-opened; err != nil {
+		c.Fail("open failed: "+err.Error(), name)
+		_ = conn.Close()
+		return
+	}
+	// stray dialers: an unrelated client connects every interval/3 and must simply be refused
+	stopStray := make(chan struct{})
+	var strayWG sync.WaitGroup
+	strays := 0
+	strayWG.Add(1)
+	go func() {
+		defer strayWG.Done()
+		tk := time.NewTicker(interval / 3)
+		defer tk.Stop()
+		for {
+			select {
+			case <-stopStray:
+				return
+			case <-tk.C:
+				x, y := net.Pipe()
+				if push(x, interval/3) {
+					strays++
+					_ = y.SetReadDeadline(time.Now().Add(time.Second))
+					_, _ = y.Read(make([]byte, 1)) // the library closes a refused connection
+				}
+				_ = y.Close()
+				_ = x.Close()
+			}
+		}
+	}()
+	round := interval + t6
+	deadline := time.Now().Add(time.Duration(sc.threshold+4)*round + 3*time.Second)
+	dropped := false
+	for time.Now().Before(deadline) {
+		if p0.closedT.Load() != 0 {
+			dropped = true
+			break
+		}
+		time.Sleep(time.Millisecond)
+	}
+	close(stopStray)
+	strayWG.Wait()
+	probes := p0.probes.Load()
+	outcome := fmt.Sprintf("%s | dropped=%s probes=%d strays=%d", name, vh.B01(dropped), probes, strays)
+	c.Case(outcome, name, true)
+	c.Count("E/passive-stray/dropped=" + vh.B01(dropped))
+	if !dropped {
+		c.Fail("dead peer not disconnected by the linktest", outcome)
+	} else {
+		if probes != int64(sc.threshold) {
+			c.Fail(fmt.Sprintf("dead peer: %d probes seen before the disconnect, want exactly threshold=%d", probes, sc.threshold), outcome)
+		}
+		elapsed := time.Duration(p0.closedT.Load() - p0.selectedT.Load())
+		if lower := time.Duration(sc.threshold) * round; elapsed < lower {
+			c.Fail(fmt.Sprintf("disconnect after %v, earlier than threshold x (interval+T6) = %v", elapsed, lower), outcome)
+		}
+	}
+	if err := conn.Close(); err != nil {
+		c.Note("close: " + err.Error())
+	}
+	close(p0.stop)
+	_ = p0.conn.Close()
+	<-p0.done
+}
+
 var ctxMu sync.Mutex
 
 // the vh.Ctx is not goroutine-safe: scenarios run concurrently but report under one lock
@@ -399,7 +565,11 @@ func runScenarioLocked(c *vh.Ctx, sc scenario) {
 			sc.scale = 4
 			retried = true
 		}
-		runScenario(local, sc)
+		if sc.passive {
+			runPassiveStray(local, sc)
+		} else {
+			runScenario(local, sc)
+		}
 		if !punctualityAlarm(local) {
 			break
 		}
